@@ -850,3 +850,14 @@ impl<Ctx: OptCtx> TypeChecked<'_, Ctx> {
         (dump, gone, lir)
     }
 }
+
+#[cfg(feature = "verif-hooks")]
+impl<Ctx: OptCtx> Package<Ctx> {
+    /// Verification hook (C05): the resolved signature types of the compiled
+    /// module (see `Module::verif_c05_signature_types`).
+    pub fn verif_c05_signature_types(
+        &mut self,
+    ) -> Vec<(String, Vec<String>, String)> {
+        self.module.verif_c05_signature_types()
+    }
+}
